@@ -94,3 +94,49 @@ func LengthOctets(n uint64) int {
 	}
 	return 1
 }
+
+// MinOctetsSigned: the minimum number of octets of the 2's-complement-binary-integer encoding of v
+// (X.691 10.4, used by 10.8 for an unconstrained whole number): the smallest n >= 1 with
+// -2^(8n-1) <= v < 2^(8n-1).
+func MinOctetsSigned(v int64) int {
+	switch {
+	case -1<<7 <= v && v < 1<<7:
+		return 1
+	case -1<<15 <= v && v < 1<<15:
+		return 2
+	case -1<<23 <= v && v < 1<<23:
+		return 3
+	case -1<<31 <= v && v < 1<<31:
+		return 4
+	case -1<<39 <= v && v < 1<<39:
+		return 5
+	case -1<<47 <= v && v < 1<<47:
+		return 6
+	case -1<<55 <= v && v < 1<<55:
+		return 7
+	}
+	return 8
+}
+
+// MinOctetsUnsigned: the minimum number of octets of the non-negative-binary-integer encoding of v
+// (X.691 10.3, used by 10.7 for the offset of a semi-constrained whole number): the smallest
+// n >= 1 with v < 2^(8n).
+func MinOctetsUnsigned(v uint64) int {
+	switch {
+	case v < 1<<8:
+		return 1
+	case v < 1<<16:
+		return 2
+	case v < 1<<24:
+		return 3
+	case v < 1<<32:
+		return 4
+	case v < 1<<40:
+		return 5
+	case v < 1<<48:
+		return 6
+	case v < 1<<56:
+		return 7
+	}
+	return 8
+}
